@@ -150,11 +150,11 @@ theorem applyFilter_erel (E : Env) (hc : E.F.chokeFilter = true) (hp : E.hasPoli
   · rename_i hd
     have hd : denied E st.ctx E.allowedFilters name = false := by simpa using hd
     split at h
-    · obtain ⟨s1, h1, h2⟩ := bind_ok h
+    · obtain ⟨s1, h1, h2⟩ := rt_bind_ok h
       cases h2
       exact erel_spy E h1 (fun hk => evAllowed_filter hp hk hd true)
     · split at h
-      · obtain ⟨x, _, h2⟩ := bind_ok h
+      · obtain ⟨x, _, h2⟩ := rt_bind_ok h
         cases h2
         exact erel_emit E st _ _ _ (fun hk => evAllowed_filter hp hk hd false)
       · cases h
@@ -180,11 +180,11 @@ theorem callFunction_erel (E : Env) (ho : E.F.outerCheck = true) (hp : E.hasPoli
     · cases h
       exact erel_emit E st _ _ _ (fun hk => evAllowed_function hp hk hd false)
     · split at h
-      · obtain ⟨s1, h1, h2⟩ := bind_ok h
+      · obtain ⟨s1, h1, h2⟩ := rt_bind_ok h
         cases h2
         exact erel_spy E h1 (fun hk => evAllowed_function hp hk hd true)
       · split at h
-        · obtain ⟨x, _, h2⟩ := bind_ok h
+        · obtain ⟨x, _, h2⟩ := rt_bind_ok h
           cases h2
           exact erel_emit E st _ _ _ (fun hk => evAllowed_function hp hk hd false)
         · split at h
@@ -240,7 +240,7 @@ theorem C06_confinement_top (E : Env) (hF : E.F.ok) (hp : E.hasPolicy = true)
   unfold renderTop at h
   split at h
   · cases h
-  · obtain ⟨⟨o, st⟩, h1, h2⟩ := bind_ok h
+  · obtain ⟨⟨o, st⟩, h1, h2⟩ := rt_bind_ok h
     have h3 : o = out ∧ st.trace.reverse = trace := by
       simp only [pure, Except.pure, Except.ok.injEq, Prod.mk.injEq] at h2; exact h2
     obtain ⟨rfl, rfl⟩ := h3
